@@ -482,7 +482,8 @@ fn reports(prop: &str, fam: Family, ins: &Instruction, class: Class) -> bool {
         },
         "C04" => match fam {
             Family::Stack => matches!(class, Rip | Gpr | Xmm | Mem | Seg | Flags),
-            Family::CallRet => matches!(class, Gpr | Xmm | Mem | Seg | Flags),
+            // RET's new RIP is the content of the slot it consumed: the only place where the slot choice shows
+            Family::CallRet => matches!(class, Gpr | Xmm | Mem | Seg | Flags) || (class == Rip && ins.mnemonic() == iced_x86::Mnemonic::Ret),
             _ => false,
         },
         "C05" => is_address_probe(ins) && matches!(class, Gpr | Xmm | Mem | Rip | Seg | SpuriousErr | Panic),
